@@ -33,6 +33,24 @@ pub fn run(rec: &mut Recorder, w: &mut World, tier: &str, seed: u64) {
     base.push(St::Flag("build", false)); base.push(St::Flag("build", true)); base.push(St::Flag("enforce", false));
     let mut hists: Vec<Vec<St>> = vec![];
     for a in &base { hists.push(vec![a.clone()]); for c in &base { hists.push(vec![a.clone(), c.clone()]); } }
+    // directed: a removal whose link update fails after the store has changed (the link was never built, or the
+    // stored rule is shorter than the definition) - the change still has to be notified
+    for removal in [MOp::RmF("g".into(), "g".into(), 0, sv(&["alice"])), MOp::Rm("g".into(), "g".into(), sv(&["alice", "admin"])),
+                    MOp::RmM("g".into(), "g".into(), vec![sv(&["alice", "admin"])]), MOp::DelUser("alice".into()), MOp::DelRole("admin".into())] {
+        hists.push(vec![St::Flag("build", false), St::M(MOp::Add("g".into(), "g".into(), sv(&["alice", "admin"]))), St::Flag("build", true), St::M(removal.clone())]);
+        hists.push(vec![St::M(MOp::Add("p".into(), "p".into(), sv(&["alice", "d1", "read", "allow"]))), St::Flag("build", false), St::M(MOp::AddM("g".into(), "g".into(), vec![sv(&["alice", "admin"]), sv(&["bob", "admin"])])), St::Flag("build", true), St::M(removal.clone()), St::Save]);
+    }
+    hists.push(vec![St::M(MOp::Add("g".into(), "g".into(), sv(&["carol"]))), St::M(MOp::RmF("g".into(), "g".into(), 0, sv(&["carol"])))]);
+    hists.push(vec![St::M(MOp::AddM("g".into(), "g".into(), vec![sv(&["alice", "admin"]), sv(&["carol"])])), St::M(MOp::RmF("g".into(), "g".into(), 0, sv(&["carol"]))), St::M(MOp::DelUser("alice".into()))]);
+    // directed: redundant toggles (on while on, off/on/on) followed by changes
+    for toggles in [vec![true], vec![true, true], vec![false, true, true], vec![false, false, true]] {
+        let mut h: Vec<St> = toggles.iter().map(|v| St::Notify(*v)).collect();
+        h.push(St::M(MOp::Add("p".into(), "p".into(), sv(&["alice", "d1", "read", "allow"]))));
+        h.push(St::M(MOp::AddM("p".into(), "p".into(), vec![sv(&["bob", "d1", "read", "allow"]), sv(&["bob", "d2", "read", "deny"])])));
+        h.push(St::M(MOp::RmF("p".into(), "p".into(), 0, sv(&["bob"]))));
+        h.push(St::M(MOp::Clear)); h.push(St::Save);
+        hists.push(h);
+    }
     let n_ex = hists.len();
     for _ in 0..n_hist {
         let len = 1 + rng.below(maxlen);
@@ -45,7 +63,11 @@ pub fn run(rec: &mut Recorder, w: &mut World, tier: &str, seed: u64) {
     for (hi, hist) in hists.iter().enumerate() {
         rec.begin();
         let kind = if hi < n_ex { "memory" } else { *rng.pick(&["memory", "null", "file"]) };
+        // every third history runs on a CachedEnforcer (its own handler table forwards the same notifications)
+        let cached = hi % 3 == 2;
+        rec.exec(w, &format!("e.cached\t{}", cached));
         new_enforcer(rec, w, &m, kind, &[], "", true);
+        rec.count(if cached { "enforcer:cached" } else { "enforcer:plain" });
         let mut replica = RefStore::of_model(&m);
         let mut enabled = true;      // notifications on (the constructor enables them)
         let mut in_sync = true;      // the replica saw every change so far
@@ -100,6 +122,7 @@ pub fn run(rec: &mut Recorder, w: &mut World, tier: &str, seed: u64) {
         rec.nontrivial_case(&descr.join("|"));
         if hi == n_ex { rec.sample(descr.iter().take(8).cloned().collect::<Vec<_>>().join(" ; ")); }
     }
+    rec.exec(w, "e.cached\tfalse");
     rec.count_n("histories:exhaustive", n_ex as u64);
     rec.count_n("histories:random", n_hist as u64);
 }
